@@ -24,6 +24,7 @@ func init() {
 	evals["econ"] = evalEcon
 	evals["eckeygen"] = evalEckeygen
 	evals["sm2sign"] = evalSm2sign
+	evals["sm2fresh"] = evalSm2fresh
 	evals["sm2signder"] = evalSm2signder
 	evals["sm2verify"] = evalSm2verify
 	evals["sm2verifyder"] = evalSm2verifyder
@@ -252,6 +253,9 @@ func modeOf(s string) int {
 
 // sm2enc <x> <y> <mode|asn1> <msg> <rand>
 func evalSm2enc(args []string) string {
+	if len(args) == 6 { // the private key, for the judge op of ./check; not used here
+		args = args[:5]
+	}
 	if len(args) != 5 {
 		return "bad-op"
 	}
@@ -395,6 +399,41 @@ func (c *chunkedRand) Read(p []byte) (int, error) {
 		p = p[:c.chunk]
 	}
 	return c.f.Read(p)
+}
+
+// sm2fresh <d> <msg> <chunk> <seed> <n> : n signatures of one message with n independent random streams, each
+// delivered <chunk> bytes per Read (0 = whole reads). Intrinsic oracle for "two signatures made with fresh
+// randomness never share the same r" and for completeness: all r distinct, every signature verifies.
+func evalSm2fresh(args []string) string {
+	if len(args) != 5 {
+		return "bad-op"
+	}
+	d, ok := bi(args[0])
+	msg, ok2 := unhx(args[1])
+	chunk, e1 := strconv.Atoi(args[2])
+	seed, e2 := strconv.ParseUint(args[3], 10, 64)
+	n, e3 := strconv.Atoi(args[4])
+	if !ok || !ok2 || e1 != nil || e2 != nil || e3 != nil || n > 5000 {
+		return "bad-op"
+	}
+	r := newRng(seed)
+	priv := privFromD(d)
+	seen := map[string]int{}
+	for i := 0; i < n; i++ {
+		stream := r.bytes(200)
+		rr, ss, err := sm2.Sm2Sign(priv, msg, nil, &chunkedRand{&fixedRand{stream}, chunk})
+		if err != nil {
+			return "ORACLE-FAIL:sign-error"
+		}
+		if !sm2.Sm2Verify(&priv.PublicKey, msg, nil, rr, ss) {
+			return "ORACLE-FAIL:own-signature-rejected"
+		}
+		if j, dup := seen[rr.String()]; dup {
+			return fmt.Sprintf("ORACLE-FAIL:r-repeats:streams-%d-and-%d", j, i)
+		}
+		seen[rr.String()] = i
+	}
+	return "ok"
 }
 
 func shortReads(f *fixedRand, rnd []byte) io.Reader {
